@@ -39,3 +39,32 @@ Proof.
   rewrite client_header_from_array_translated. destruct (V.client_header_from_array _); reflexivity.
 Qed.
 
+
+(* HeaderCrypto::decrypt_client_header has a body of its own (it does not delegate to the half): translated from
+   src/vanilla_header/mod.rs with the combined object's raw decrypt as the external call, it is the model's
+   V.crypto_decrypt_client_header -- ONE raw decrypt of all six bytes, then big-endian size, little-endian opcode *)
+Lemma vanilla_crypto_decrypt_client_header_translated : forall c data, length data = 6%nat ->
+  tr_vanilla_crypto_decrypt_client_header (fun c d => nview (V.crypto_decrypt c d)) c data = nview (V.crypto_decrypt_client_header c data).
+Proof.
+  intros c data Hl. unfold tr_vanilla_crypto_decrypt_client_header, V.crypto_decrypt_client_header.
+  destruct (V.crypto_decrypt c data) as [[c' o]|e|] eqn:E; [|destruct e|reflexivity]. cbn [nview].
+  unfold V.crypto_decrypt in E. destruct (V.decrypt (V.cr_dec c) data) as [[d o']|e|] eqn:E1; [|destruct e|discriminate].
+  injection E as _ <-.
+  unfold V.decrypt in E1. destruct (dec_loop _ _ _ data) as [[s o'']|] eqn:E2; [|discriminate]. injection E1 as _ <-.
+  pose proof (dec_loop_length _ _ _ _ _ _ E2) as L. rewrite Hl in L.
+  destruct o'' as [|b0 [|b1 [|b2 [|b3 [|b4 [|b5 [|]]]]]]]; try discriminate L.
+  nums. cbn [nth_error rev app le_to_N nview]. do 3 f_equal; lia.
+Qed.
+(* and it agrees with what the split-off half computes: the combined object and the half cannot drift apart *)
+Lemma vanilla_crypto_decrypt_client_header_is_half : forall c data, length data = 6%nat ->
+  V.crypto_decrypt_client_header c data
+  = match V.decrypt_client_header (V.cr_dec c) data with
+    | Ok (d, hd) => Ok ({| V.cr_dec := d; V.cr_enc := V.cr_enc c |}, hd) | Err e => Err e | Panic => Panic end.
+Proof.
+  intros c data Hl. unfold V.crypto_decrypt_client_header, V.decrypt_client_header, V.crypto_decrypt.
+  destruct (V.decrypt (V.cr_dec c) data) as [[d o]|e|] eqn:E; [|destruct e|reflexivity].
+  unfold V.decrypt in E. destruct (dec_loop _ _ _ data) as [[s o']|] eqn:E2; [|discriminate]. injection E as _ <-.
+  pose proof (dec_loop_length _ _ _ _ _ _ E2) as L. rewrite Hl in L.
+  destruct o' as [|b0 [|b1 [|b2 [|b3 [|b4 [|b5 [|]]]]]]]; try discriminate L.
+  reflexivity.
+Qed.
